@@ -89,7 +89,7 @@ CHECKS = {
     ),
     "C04": dict(
         technique="bounded-exhaustive enumeration of documents (content class x size x name) x protocols x handler lists, plus deviation-bounded DFS over short-read patterns of the VFS file object, plus an exhaustive TLS-versus-plaintext differential over real sockets (object kind x protocol pair x server type), on the implementation",
-        text="Every document of the cross product content classes x sizes around each multiple of the 4096-byte copy block x names (spaces, reserved URL characters, non-UTF-8, encodings, unknown and upper-case extensions) is fetched through 10 protocol forms under both handler lists; "
+        text="Every document of the cross product content classes x sizes around each multiple of the 4096-byte copy block x names (spaces, reserved URL characters, non-UTF-8, encodings, unknown and upper-case extensions, names of 247-255 bytes) is fetched through 10 protocol forms under both handler lists, a second pair of MIME tables and a document root that is a symbolic link; "
              "the body must equal the file (gunzip/bunzip2 of it where decompression is configured), WAP's WML must invert line by line to the source, a Gopher+ length must equal the bytes that follow, HEAD must equal GET's headers with no body, "
              "and the advertised MIME type must equal an independent reading of conf/mime.types and the encoding map. All patterns of short reads (n / n-1 / 1 bytes per read) within the deviation bound are explored for three file sizes x five protocols.",
         design_ref="DESIGN.md 3/C04",
@@ -98,12 +98,12 @@ CHECKS = {
         technique="explicit-state breadth-first search over operation histories (listings through 4 protocols, directory mutations, virtual-clock advances) on the implementation, checked step by step against an explicit cache model with a caching-off twin server as reference; a fully enumerated set of real-time situations on a real deployment",
         text="All histories over the operation menu up to the depth bound (states de-duplicated on directory contents, unpickled cache entries, capped cache age and model snapshot) are replayed on a fresh world under a virtual clock; "
              "every listing must equal what the cache model predicts: the twin's fresh listing on a miss (no cache, or age >= lifetime), the listing recorded when the entry was written on a hit, whichever protocols wrote and read it; "
-             "a hit must not touch the cache file, a miss must rewrite it; lifetime 0 always reflects the current directory.",
+             "a hit must not touch the cache file, a miss must rewrite it; lifetime 0 always reflects the current directory; at the end of every history a listing is attempted while os.listdir of the directory fails, which must not be answered from an expired entry.",
         design_ref="DESIGN.md 3/C10",
     ),
     "C12": dict(
         technique="exhaustive fault enumeration (fault kind x position x singles and pairs x protocols x directory handlers; occurrence-indexed stat failures at the os seam; special files in every metadata position) on the implementation, differential against the fault-free listing",
-        text="Every single and every pair of unservable entries (real dangling and self-referential links, FIFOs, UNIX sockets, names containing '..', directories whose children the filter rejects; seam-injected vanished entries and EACCES) "
+        text="Every single and every pair of unservable entries (real dangling and self-referential links, FIFOs, UNIX sockets, names containing '..', directories whose children the filter rejects, directories that may be read but not searched; special files called gophermap; seam-injected vanished entries and EACCES) "
              "at every sort position of a 4-entry directory, listed through 7 protocols by both directory handlers and inside ZIP archives; the listing must succeed and, with the faulty names removed, equal the fault-free listing.",
         design_ref="DESIGN.md 3/C12",
     ),
